@@ -188,3 +188,100 @@ def meta_common(L):
         dropped=['logging lowered to no-ops', 'MCRASH lowered to an assertion obligation'],
         extra_coverage=dict(functions_lowered=len(L.order), opaque_blobs=L.blobs[:10]),
     )
+
+
+# ---------------------------------------------------------------------------------------------------------------
+# C01 layers L3/L4: flattenable leaves and the child-flattener pattern `item.Flatten(DataFlattener(parent, size))`
+FLAT_TU = '''#include "util/ByteBuffer.h"
+#include "support/Point.h"
+#include "support/Rect.h"
+#include "util/String.h"
+namespace muscle {
+void mv_force(DataFlattener & f, DataUnflattener & u, const Point * p, Point * q, const Rect * r, const String * s, uint32 n)
+{ f.WriteFlats(p, n); f.WriteFlats(r, n); f.WriteFlatsWithLengthPrefixes(s, n); (void) u.ReadFlats(q, n); f.WriteFlat(*p); }
+}
+'''
+FLAT_FOLLOW = ('LittleEndianConverter', 'muscleCopyOut', 'muscleCopyIn', 'DataFlattenerHelper', 'DataUnflattenerHelper', 'status_t', 'RealSizeChecker', 'WillUnsigned',
+               'muscleMin', 'Point', 'Rect', 'Tuple', 'String::Flatten', 'String::FlattenedSize', 'String::Length', 'String::Cstr', 'StringData', 'String::IsArray',
+               'PseudoFlattenable', 'mv_force', 'B_REINTERPRET')
+
+
+def lower_flat():
+    if 'F' in _cache:
+        return _cache['F']
+    wd = tempfile.mkdtemp(prefix='mv_ast_', dir=os.environ.get('MV_SCRATCH', '/var/tmp'))
+    try:
+        docs = cxx2c.dump_ast(FLAT_TU, wd, repo=REPO)
+        L = cxx2c.Lowerer(docs, memberwise=('status_t',), member_array_as_pointer=('_smallBuffer',), follow=lambda qn, d: any(x in qn for x in FLAT_FOLLOW))
+        roots = cxx2c.find_functions(L, names=['mv_force'])
+        if len(roots) != 1:
+            raise cxx2c.Unsupported('extraction TU broke (mv_force not found)')
+        L.lower_all(roots)
+    finally:
+        shutil.rmtree(wd, ignore_errors=True)
+    _cache['F'] = L
+    return L
+
+
+def flat_jobs(tier):
+    L = lower_flat()
+    J = []
+    DFS = 'struct DataFlattenerHelper_LittleEndianConverter'
+    DUS = 'struct DataUnflattenerHelper_LittleEndianConverter_RealSizeChecker'
+    string_h = open(os.path.join(VERIF, 'contracts/string.h')).read()
+    for cls, n in (('Point', 2), ('Rect', 4)):
+        size = 4 * n
+        fl = pick(L, r'^_ZNK6muscle%d%s7FlattenENS_19DataFlattenerHelper' % (len(cls), cls))
+        un = pick(L, r'^_ZN6muscle%d%s9UnflattenERNS_21DataUnflattenerHelper' % (len(cls), cls)) if cls == 'Point' else None
+        fs = pick(L, r'^_ZN6muscle%d%s13FlattenedSizeEv$' % (len(cls), cls))
+        items = '((const float *)this)'
+        bytes_ok = ' && '.join('MV_LE4(__CPROVER_old(flat->_writeTo) + %d) == (unsigned long)MV_BITS(unsigned int, %s[%d])' % (4 * i, items, i) for i in range(n))
+        c = ('void %s(struct %s *this, DF *flat)\n'
+             '__CPROVER_requires(__CPROVER_is_fresh(this, sizeof(struct %s)) && WF_DF(flat) && DF_ROOM(flat) >= %d && mv_k < flat->_maxBytes)\n'
+             '__CPROVER_assigns(flat->_writeTo, __CPROVER_object_whole(flat->_origWriteTo))\n'
+             '/* exactly FlattenedSize() bytes: the documented encoding of the %d floats, in order; nothing else in the window changes */\n'
+             '__CPROVER_ensures(flat->_writeTo == __CPROVER_old(flat->_writeTo) + %d)\n__CPROVER_ensures(%s)\n'
+             '__CPROVER_ensures((mv_k >= __CPROVER_old(DF_OFF(flat)) && mv_k < __CPROVER_old(DF_OFF(flat)) + %d) || flat->_origWriteTo[mv_k] == __CPROVER_old(flat->_origWriteTo[mv_k]))\n;\n'
+             % (fl, cls, cls, size, n, size, bytes_ok, size))
+        h = '\nvoid h_main(void) { mv_init_globals(); unsigned int k; mv_k = k; struct %s *p; DF *f; %s(p, f); %s }\n' % (cls, fl, END)
+        J.append(Job('flat_%s_Flatten' % cls, tu_for(L, [fl], c, h), 'h_main', enforce=[fl], loops=False, unwind=n + 2, klass='proved',
+                     functions=[('support/%s.h' % cls, cls + '::Flatten')], timeout=600, split=0, note='constant-trip loop (%d floats)' % n))
+        cs = 'unsigned int %s(void)\n__CPROVER_assigns()\n__CPROVER_ensures(__CPROVER_return_value == %d)\n;\n' % (fs, size)
+        J.append(Job('flat_%s_FlattenedSize' % cls, tu_for(L, [fs], cs, '\nvoid h_main(void) { %s(); %s }\n' % (fs, END)), 'h_main', enforce=[fs], loops=False,
+                     klass='proved', functions=[('support/%s.h' % cls, cls + '::FlattenedSize')], timeout=300, split=0))
+        if un:
+            reads = ' && '.join('(unsigned long)MV_BITS(unsigned int, %s[%d]) == MV_LE4(__CPROVER_old(unflat->_readFrom) + %d)' % (items, i, 4 * i) for i in range(n))
+            cu = ('struct status_t %s(struct %s *this, DU *unflat)\n'
+                  '__CPROVER_requires(__CPROVER_is_fresh(this, sizeof(struct %s)) && WF_DU(unflat) && mv_room == DU_ROOM(unflat) && ST_OK(unflat->_status))\n'
+                  '__CPROVER_assigns(__CPROVER_object_whole(this), unflat->_readFrom, unflat->_status)\n'
+                  '__CPROVER_ensures(ST_OK(__CPROVER_return_value) == (mv_room >= %d))\n'
+                  '__CPROVER_ensures(!ST_OK(__CPROVER_return_value) || (unflat->_readFrom == __CPROVER_old(unflat->_readFrom) + %d && %s))\n;\n'
+                  % (un, cls, cls, size, size, reads))
+            hu = '\nvoid h_main(void) { mv_init_globals(); unsigned long r_; mv_room = r_; struct %s *p; DU *u; %s(p, u); %s }\n' % (cls, un, END)
+            J.append(Job('flat_%s_Unflatten' % cls, tu_for(L, [un], cu, hu), 'h_main', enforce=[un], loops=False, unwind=n + 2, klass='proved',
+                         functions=[('support/%s.h' % cls, cls + '::Unflatten')], timeout=600, split=0))
+    if tier == 'quick' and not os.environ.get('MV_SLOW'):
+        return J    # the job below needs ~9 min: thorough tier
+    # child-flattener pattern with items of different sizes: two Strings with length prefixes
+    wf = pick(L, r'^_ZN6muscle19DataFlattenerHelperINS_21LittleEndianConverterEE28WriteFlatsWithLengthPrefixesINS_6StringEEEvPKT_j$')
+    sm = 17
+    cw = ('#define MV_SMAX %d\n' % sm + string_h +
+          'unsigned int mv_l0, mv_l1;   /* ghost: lengths of the two strings */\n'
+          '#define S0 (&vals[0])\n#define S1 (&vals[1])\n'
+          '#define WF_S_ELEM(s) WF_S_BODY(s, ((S_LNG(s)._encBufLen & 0x7fffffffu) <= MV_SMAX && __CPROVER_is_fresh(S_LNG(s)._bigBuffer, (S_LNG(s)._encBufLen & 0x7fffffffu))))\n'
+          'void %s(DF *this, struct String *vals, unsigned int numVals)\n'
+          '__CPROVER_requires(numVals == 2 && __CPROVER_is_fresh(vals, 2 * sizeof(struct String)) && WF_S_ELEM(S0) && WF_S_ELEM(S1) && S_SHORT(S0) && S_SHORT(S1) && mv_l0 == S_LEN(S0) && mv_l1 == S_LEN(S1))\n'
+          '__CPROVER_requires(WF_DF(this) && DF_ROOM(this) >= (unsigned long)mv_l0 + mv_l1 + 10)\n'
+          '__CPROVER_assigns(this->_writeTo, __CPROVER_object_whole(this->_origWriteTo))\n'
+          '/* size exactness per item: each item is preceded by ITS OWN flattened size (length + NUL) and occupies exactly that many bytes */\n'
+          '__CPROVER_ensures(this->_writeTo == __CPROVER_old(this->_writeTo) + (4 + mv_l0 + 1) + (4 + mv_l1 + 1))\n'
+          '__CPROVER_ensures(MV_LE4(__CPROVER_old(this->_writeTo)) == (unsigned long)mv_l0 + 1)\n'
+          '__CPROVER_ensures(MV_LE4(__CPROVER_old(this->_writeTo) + 4 + mv_l0 + 1) == (unsigned long)mv_l1 + 1)\n'
+          '/* every string is written as its bytes plus one NUL */\n'
+          '__CPROVER_ensures(__CPROVER_old(this->_writeTo)[4 + mv_l0] == 0 && __CPROVER_old(this->_writeTo)[4 + mv_l0 + 1 + 4 + mv_l1] == 0)\n;\n' % wf)
+    hw = '\nvoid h_main(void) { mv_init_globals(); unsigned int a_, b_; mv_l0 = a_; mv_l1 = b_; DF *f; struct String *v; unsigned int n; %s(f, v, n); %s }\n' % (wf, END)
+    J.append(Job('flat_WriteFlatsWithLengthPrefixes_String', '#define MV_BUFMAX 48\n' + tu_for(L, [wf], cw, hw), 'h_main', enforce=[wf], loops=False, unwind=4,
+                 klass='bounded', bound='2 Strings in their inline representation (every length 0..15, every content), output window <= 48 bytes',
+                 functions=[(DF_H, 'DataFlattenerHelper::WriteFlatsWithLengthPrefixes<String> (WriteFlatsAux, child flattener ctor/dtor)'), ('util/String.h', 'String::Flatten / FlattenedSize')],
+                 timeout=900, split=0))
+    return J
